@@ -9,7 +9,9 @@ def register(m):
     m("C05", "c05-mul-adds-factor", CQ, "    factor *= arg_factor\n", "    factor += arg_factor\n", "S6")
     m("C05", "c05-mul-dim-not-multiplied", CQ, "    return (factor, dim * arg_dim)", "    return (factor, dim)", "S6")
     m("C05", "c05-add-multiplies", CQ, "    return (Add(*factors), dim)", "    return (Mul(*factors), dim)", "S6")
-    m("C05", "c05-pow-dim-exponent-differs", CQ, "        return (base_factor**exp_factor, base_dim**exp_factor)", "        return (base_factor**exp_factor, base_dim**2)", "S6")
+    m("C05", "c05-pow-dim-exponent-differs", CQ, "        return (base_factor**exp_factor, base_dim**dim_exp)", "        return (base_factor**exp_factor, base_dim**2)", "S6")
+    m("C05", "c05-pow-dim-exponent-other-variable", CQ, "        return (base_factor**exp_factor, base_dim**dim_exp)", "        return (base_factor**exp_factor, base_dim**base_factor)", "S6")
+    m("C05", "c05-pow-dim-exponent-rounded", CQ, "        dim_exp = nsimplify(exp_factor, rational=True) if exp_factor.is_Float else exp_factor", "        dim_exp = round(exp_factor)", "S6")
     m("C05", "c05-wrapper-skips-second", CQ, "        for arg in expr.args[1:]:", "        for arg in expr.args[2:]:", "S1")
     m("C05", "c05-pow-exp-not-collected", CQ, "    (exp_factor, exp_dim) = collect_quantity_factor_and_dimension(expr.exp)",
       "    (exp_factor, exp_dim) = (expr.exp, dimensionless)", "S1")
@@ -23,8 +25,8 @@ def register(m):
       "        if is_any_dimension(Add(*factors)):\n            dim = None\n\n        if dim is None:", "S3")
     m("C05", "c05-terms-skip-first", CQ, "    for arg in expr.args:\n        arg_factor, arg_dim = collect_quantity_factor_and_dimension(arg)\n        factors.append(arg_factor)",
       "    for arg in expr.args[1:]:\n        arg_factor, arg_dim = collect_quantity_factor_and_dimension(arg)\n        factors.append(arg_factor)", "S1")
-    m("C05", "c05-pow-dimensional-exponent-accepted", CQ, "    if is_any_dimension(exp_factor) or dimsys_SI.is_dimensionless(exp_dim):\n        return (base_factor**exp_factor, base_dim**exp_factor)\n\n    raise ValueError",
-      "    return (base_factor**exp_factor, base_dim**exp_factor)\n\n    raise ValueError", "S3")
+    m("C05", "c05-pow-dimensional-exponent-accepted", CQ, "    if is_any_dimension(exp_factor) or dimsys_SI.is_dimensionless(exp_dim):\n",
+      "    if True:\n", "S3")
     m("C05", "c05-function-before-abs", CQ, "    Abs: _collect_abs,\n    MinMaxBase: _collect_min_max,\n    Derivative: _unsupported_derivative,\n    SymFunction: _collect_function,",
       "    SymFunction: _collect_function,\n    Abs: _collect_abs,\n    MinMaxBase: _collect_min_max,\n    Derivative: _unsupported_derivative,", "S2")
     m("C05", "c05-derivative-accepted", CQ, "    raise ValueError(f\"'{expr}' should not contain unevaluated Derivative\")", "    return expr, dimensionless", "S4")
